@@ -38,12 +38,24 @@ TranslationError, as does a change of what the interpreter's reading relies on:
   * a rebinding of the builtins / class names the bodies use.
 
 The output depends on the abstract syntax only: comments, docstrings, layout and the
-names of parameters and locals do not change it.
+names of parameters and locals do not change it.  Before the pins are compared and the
+bodies translated the AST is NORMALISED (N1-N8 below, each an identity of Python's
+semantics): annotations dropped, module-level literal constants and small helper
+functions inlined, f-strings / str.format as %-formatting, list(x.contents) = x.contents,
+`yield from`, if/else of one assignment = conditional expression, structured control
+flow (early return / raise / continue vs else, `if not c`), so that such rewrites of
+the source give the identical EditGen.v.  Pinned functions are compared up to the names
+of their locals.  Constructs the model has no meaning for but that are plain Python
+(`x.all`, list methods on a TexArgs / `l[i] = v` on a list object, int comparisons / max /
+min / -) are translated to constructors whose evaluation leaves the fragment (OUnsup,
+EditDSL.v) or computes on ints: a body that uses them is a program whose equality lemma
+fails, rather than a translation failure.
 
 Usage: gen_edit.py <out.v>        exit 0 = written (only if content changed)
                                   exit 2 = translation failed (message on stderr)
 """
 import ast
+import copy
 import os
 import sys
 
@@ -117,7 +129,8 @@ CLASS_ORDER = ['TexNode', 'TexExpr', 'TexEnv', 'TexNamedEnv', 'TexUnNamedEnv'] +
 
 ATTRS = {'expr': 'A_expr', 'parent': 'A_parent', 'args': 'A_args', '_contents': 'A_raw',
          'contents': 'A_contents', 'name': 'A_name', 'string': 'A_string', 'begin': 'A_begin',
-         'end': 'A_end', '_text': 'A_text', '_begin': 'A_begin_raw', '_end': 'A_end_raw'}
+         'end': 'A_end', '_text': 'A_text', '_begin': 'A_begin_raw', '_end': 'A_end_raw',
+         'all': 'A_all'}
 FIELDS = ['expr', 'parent', '_contents', '_text', '_begin', '_end']
 METHODS = {'append': 'M_append', 'insert': 'M_insert', 'remove': 'M_remove', 'delete': 'M_delete',
            'replace': 'M_replace', 'replace_with': 'M_replace_with', 'copy': 'M_copy',
@@ -128,14 +141,19 @@ METHODS = {'append': 'M_append', 'insert': 'M_insert', 'remove': 'M_remove', 'de
 PROPS = ['name', 'args', 'begin', 'end', 'contents', 'string']
 UNTRANSLATED_GETTERS = {('TexNode', 'contents'), ('TexExpr', 'contents'),
                         ('TexNode', 'string'), ('TexExpr', 'string')}
-LOPS = {'extend': ('LExtend', 1), 'insert': ('LInsert', 2), 'index': ('LIndex', 1)}
+LOPS = {'extend': ('LExtend', (1,)), 'insert': ('LInsert', (2,)), 'index': ('LIndex', (1,)),
+        'append': ('LAppend', (1,)), 'remove': ('LRemove', (1,)), 'pop': ('LPop', (0, 1)),
+        'clear': ('LClear', (0,)), 'reverse': ('LReverse', (0,))}
+LIST_HOLDERS = ('_contents', 'args', 'all')      # attributes that hold list objects
+CMPOPS = {ast.Lt: 'CLt', ast.LtE: 'CLe', ast.Gt: 'CGt', ast.GtE: 'CGe'}
 EXNS = ('TypeError', 'ValueError', 'AssertionError', 'IndexError')
 BUILTINS = ('isinstance', 'str', 'int', 'list', 'tuple', 'len', 'bool', 'next', 'any', 'all',
-            'enumerate', 'map', 'super', 'object', 'property') + EXNS
+            'enumerate', 'map', 'super', 'object', 'property', 'max', 'min') + EXNS
 FORBIDDEN_DUNDERS = ('__eq__', '__ne__', '__bool__', '__len__', '__getattribute__', '__setattr__',
                      '__delattr__', '__getattr__', '__hash__', '__set__', '__get__',
-                     '__init_subclass__', '__class_getitem__', '__new__')
+                     '__init_subclass__', '__class_getitem__', '__new__', '__format__')
 # TexArgs is translated by gen_args.py; here only its __str__ and __getitem__ matter
+LIST_ATTRS = frozenset(dir(list))
 TEXARGS_MEMBERS = ['__init__', '_TexArgs__coerce', '__coerce', 'append', 'extend', 'insert',
                    'remove', 'pop', 'reverse', 'clear', '__getitem__', '__contains__', '__str__',
                    '__repr__']
@@ -260,6 +278,470 @@ def to_list(f):
 PINNED_ROOT = "TexEnv('[tex]', begin='', end='', contents=buf)"
 
 
+
+# ------------------------------------------------------------ normalisation
+# Rewrites of the Python AST applied BEFORE the pins are compared and the bodies are
+# translated.  Each one is an identity of Python's semantics under the side conditions
+# checked here (fail-closed: when a side condition does not hold the source is left as it
+# is, and then either translates as written or makes the translation fail):
+#   N1  annotations (parameters, return, `x: T = e`) are dropped.
+#   N2  a module-level name bound exactly once, by `NAME = <literal>` (str / int / None /
+#       bool / tuple of those), is replaced by the literal where it is read and is not a local.
+#   N3  a module-level function `def f(p..): return E` (positional parameters only, bound
+#       once, no decorator) called as f(<names / constants>) is replaced by E[p := argument];
+#       `def f(p..): <assignments / expression statements>; return E` likewise where the call
+#       is the whole value of an expression statement / assignment / return / yield (its
+#       locals get fresh names).  Nothing is captured: checked.  A helper no reference to
+#       which remains is removed from the module.
+#   N4  f-strings and '..{}..'.format(..) are %-formatting with %s ('%' escaped).
+#   N5  list(x.contents) is x.contents (the getters TexNode.contents / TexExpr.contents are
+#       pinned: @to_list builds a new list on every read).
+#   N6  `for x in E: yield x` (x not used otherwise) is `yield from E` (only the pinned
+#       generators contain yields).
+#   N7  `if c: T = a else: T = b` is `T = a if c else b` (T a name or an attribute of a name).
+#   N8  structured control flow: when a branch of an `if` always leaves (return / raise /
+#       continue) the statements after the `if` are moved into the other branch; `if not c:
+#       A else: B` is `if c: B else: A`; a `continue` that ends a loop body and a `return` /
+#       `return None` that ends the function are dropped.
+def is_literal(n):
+    if isinstance(n, ast.Constant):
+        return n.value is None or type(n.value) in (str, int, bool)
+    if isinstance(n, ast.Tuple) and isinstance(n.ctx, ast.Load):
+        return all(is_literal(e) for e in n.elts)
+    return False
+
+
+def function_locals(fn):
+    """every identifier bound somewhere inside fn (parameters, assignments, loop and
+    comprehension targets, except-handlers, imports, nested definitions)"""
+    out = set()
+    a = fn.args
+    for x in a.args + a.kwonlyargs + getattr(a, 'posonlyargs', []) + \
+            ([a.vararg] if a.vararg else []) + ([a.kwarg] if a.kwarg else []):
+        out.add(x.arg)
+    for n in ast.walk(fn):
+        if isinstance(n, ast.Name) and not isinstance(n.ctx, ast.Load):
+            out.add(n.id)
+        elif isinstance(n, (ast.FunctionDef, ast.ClassDef, ast.AsyncFunctionDef)) and n is not fn:
+            out.add(n.name)
+        elif isinstance(n, ast.ExceptHandler) and n.name:
+            out.add(n.name)
+        elif isinstance(n, (ast.Import, ast.ImportFrom)):
+            for al in n.names:
+                out.add((al.asname or al.name).split('.')[0])
+        elif isinstance(n, ast.arg):
+            out.add(n.arg)          # lambda parameters
+    return out
+
+
+def copy_node(n):
+    return copy.deepcopy(n)
+
+
+class Subst(ast.NodeTransformer):
+    """replace Name loads by expressions / rename identifiers"""
+    def __init__(self, loads, renames):
+        self.loads, self.renames = loads, renames
+
+    def visit_Name(self, n):
+        if n.id in self.renames:
+            return ast.copy_location(ast.Name(id=self.renames[n.id], ctx=n.ctx), n)
+        if isinstance(n.ctx, ast.Load) and n.id in self.loads:
+            return ast.copy_location(copy_node(self.loads[n.id]), n)
+        return n
+
+
+def helper_kind(fn):
+    """None, or ('expr', E) / ('stmts', [stmts], E) for an inlinable module-level function"""
+    a = fn.args
+    if fn.decorator_list or a.vararg or a.kwarg or a.kwonlyargs or a.defaults or a.kw_defaults \
+            or getattr(a, 'posonlyargs', []):
+        return None
+    params = [x.arg for x in a.args]
+    if len(set(params)) != len(params):
+        return None
+    body = strip_doc(fn.body)
+    if not body or not isinstance(body[-1], ast.Return) or body[-1].value is None:
+        return None
+    for n in ast.walk(fn):
+        if isinstance(n, (ast.Lambda, ast.Yield, ast.YieldFrom, ast.Await, ast.NamedExpr, ast.Global,
+                          ast.Nonlocal, ast.FunctionDef, ast.ClassDef, ast.AsyncFunctionDef,
+                          ast.Starred)) and n is not fn:
+            return None
+        if isinstance(n, ast.Name) and not isinstance(n.ctx, ast.Load) and n.id in params:
+            return None             # a parameter is assigned
+        if isinstance(n, ast.Call) and is_name(n.func, fn.name):
+            return None             # recursive
+    for st in body[:-1]:
+        ok = isinstance(st, ast.Expr) or (isinstance(st, ast.Assign) and len(st.targets) == 1 and (
+            isinstance(st.targets[0], ast.Name) or
+            (isinstance(st.targets[0], ast.Attribute) and isinstance(st.targets[0].value, ast.Name))))
+        if not ok:
+            return None
+    if len(body) == 1:
+        return ('expr', body[0].value)
+    return ('stmts', body[:-1], body[-1].value)
+
+
+class Inliner(object):
+    def __init__(self, consts, helpers):
+        self.consts, self.helpers = consts, helpers
+        self.counter = 0
+
+    def simple_args(self, call, locs, fn):
+        """the call passes names / constants only, one per parameter"""
+        if call.keywords or len(call.args) != len(fn.args.args):
+            return False
+        for x in call.args:
+            if not (isinstance(x, ast.Name) or (isinstance(x, ast.Constant) and is_literal(x))):
+                return False
+        return True
+
+    def instantiate(self, name, call, locs):
+        """(statements, expression) of the helper for this call, or None"""
+        fn = self.helpers[name]
+        kind = helper_kind(fn)
+        if kind is None or not self.simple_args(call, locs, fn):
+            return None
+        params = [x.arg for x in fn.args.args]
+        hlocals = function_locals(fn) - set(params)
+        # free names of the helper keep their module-level meaning in the caller
+        free = {n.id for n in ast.walk(fn) if isinstance(n, ast.Name)} - hlocals - set(params)
+        if free & locs:
+            return None
+        argnames = {x.id for x in call.args if isinstance(x, ast.Name)}
+        if kind[0] == 'expr' and hlocals:
+            return None             # comprehension targets inside E: keep it simple
+        self.counter += 1
+        renames = {h: '_h%d_%s' % (self.counter, h) for h in sorted(hlocals)}
+        if set(renames.values()) & (locs | argnames):
+            return None
+        sub = Subst(dict(zip(params, call.args)), renames)
+        stmts = [] if kind[0] == 'expr' else [ast.fix_missing_locations(sub.visit(copy_node(st)))
+                                              for st in kind[1]]
+        ex = ast.fix_missing_locations(sub.visit(copy_node(kind[-1])))
+        return stmts, ex
+
+    def inline_function(self, fn):
+        """fn with module constants and helper calls replaced (a new FunctionDef)"""
+        locs = function_locals(fn)
+        me = self
+
+        class T(ast.NodeTransformer):
+            def visit_Name(self, n):
+                if isinstance(n.ctx, ast.Load) and n.id in me.consts and n.id not in locs:
+                    return ast.copy_location(copy_node(me.consts[n.id]), n)
+                return n
+
+            def visit_Call(self, n):
+                self.generic_visit(n)
+                if isinstance(n.func, ast.Name) and n.func.id in me.helpers and n.func.id not in locs:
+                    got = me.instantiate(n.func.id, n, locs)
+                    if got is not None and not got[0]:
+                        return ast.copy_location(got[1], n)
+                return n
+
+        def stmt_list(body):
+            out = []
+            for st in body:
+                # a helper with statements: the call must be the whole value of the statement
+                call, put = None, None
+                if isinstance(st, ast.Expr) and isinstance(st.value, ast.Yield) and st.value.value is not None:
+                    call = st.value.value
+                    put = lambda e, st=st: ast.copy_location(ast.Expr(value=ast.Yield(value=e)), st)
+                elif isinstance(st, ast.Expr):
+                    call = st.value
+                    put = lambda e, st=st: ast.copy_location(ast.Expr(value=e), st)
+                elif isinstance(st, ast.Assign) and len(st.targets) == 1 and isinstance(st.targets[0], ast.Name):
+                    call = st.value
+                    put = lambda e, st=st: ast.copy_location(ast.Assign(targets=st.targets, value=e), st)
+                elif isinstance(st, ast.Return) and st.value is not None:
+                    call = st.value
+                    put = lambda e, st=st: ast.copy_location(ast.Return(value=e), st)
+                if isinstance(call, ast.Call) and isinstance(call.func, ast.Name) \
+                        and call.func.id in me.helpers and call.func.id not in locs:
+                    got = me.instantiate(call.func.id, call, locs)
+                    if got is not None and got[0]:
+                        for h in got[0]:
+                            out.append(ast.copy_location(h, st))
+                        out.append(ast.fix_missing_locations(put(got[1])))
+                        continue
+                for field in ('body', 'orelse', 'finalbody'):
+                    if isinstance(getattr(st, field, None), list) and not isinstance(st, ast.IfExp):
+                        setattr(st, field, stmt_list(getattr(st, field)))
+                out.append(st)
+            return out
+
+        new = copy_node(fn)
+        new.body = stmt_list(new.body)
+        new = T().visit(new)
+        return ast.fix_missing_locations(new)
+
+
+def inline_module(tree, allow_attr=()):
+    """N2 / N3 on every method of every class; removes the helpers / constants that are no
+    longer referred to"""
+    bound = module_bindings(tree, allow_attr)
+    consts, helpers = {}, {}
+    for st in tree.body:
+        if isinstance(st, ast.Assign) and len(st.targets) == 1 and isinstance(st.targets[0], ast.Name) \
+                and is_literal(st.value) and bound.get(st.targets[0].id) == ['assign'] \
+                and not st.targets[0].id.startswith('__'):
+            consts[st.targets[0].id] = st.value
+        elif isinstance(st, ast.FunctionDef) and bound.get(st.name) == ['def'] and helper_kind(st):
+            helpers[st.name] = st
+    if not consts and not helpers:
+        return tree
+    inl = Inliner(consts, helpers)
+    # constants inside the helpers first
+    for nm in list(helpers):
+        helpers[nm] = inl_consts_only(helpers[nm], consts)
+    body = []
+    for st in tree.body:
+        if isinstance(st, ast.ClassDef):
+            st = copy_class(st, [inl.inline_function(x) if isinstance(x, ast.FunctionDef) else x
+                                 for x in st.body])
+        body.append(st)
+    # drop what is no longer referred to
+    def referred(name, skip):
+        for st in body:
+            if st is skip:
+                continue
+            for n in ast.walk(st):
+                if isinstance(n, ast.Name) and n.id == name:
+                    return True
+                if isinstance(n, ast.Constant) and n.value == name:
+                    return True     # e.g. listed in __all__
+        return False
+    out = []
+    for st in body:
+        if isinstance(st, ast.FunctionDef) and st.name in helpers and not referred(st.name, st):
+            continue
+        if isinstance(st, ast.Assign) and len(st.targets) == 1 and isinstance(st.targets[0], ast.Name) \
+                and st.targets[0].id in consts and not referred(st.targets[0].id, st):
+            continue
+        out.append(st)
+    return ast.fix_missing_locations(ast.Module(body=out, type_ignores=[]))
+
+
+def inl_consts_only(fn, consts):
+    return Inliner(consts, {}).inline_function(fn)
+
+
+def copy_class(cl, body):
+    return ast.copy_location(ast.ClassDef(name=cl.name, bases=cl.bases, keywords=cl.keywords,
+                                          body=body, decorator_list=cl.decorator_list), cl)
+
+
+def fmt_escape(s):
+    return s.replace('%', '%%')
+
+
+class ExprNorm(ast.NodeTransformer):
+    """N4, N5"""
+    def __init__(self, locs):
+        self.locs = locs
+
+    def visit_JoinedStr(self, n):
+        self.generic_visit(n)
+        fmt, args = '', []
+        for v in n.values:
+            if isinstance(v, ast.Constant) and type(v.value) is str:
+                fmt += fmt_escape(v.value)
+            elif isinstance(v, ast.FormattedValue) and v.conversion in (-1, 115) and v.format_spec is None:
+                fmt += '%s'
+                args.append(v.value)
+            else:
+                return n
+        return ast.copy_location(ast.BinOp(left=ast.Constant(value=fmt), op=ast.Mod(),
+                                           right=ast.Tuple(elts=args, ctx=ast.Load())), n)
+
+    def visit_Call(self, n):
+        self.generic_visit(n)
+        f = n.func
+        if isinstance(f, ast.Name) and f.id == 'list' and 'list' not in self.locs and not n.keywords \
+                and len(n.args) == 1 and isinstance(n.args[0], ast.Attribute) and n.args[0].attr == 'contents':
+            return n.args[0]
+        if isinstance(f, ast.Attribute) and f.attr == 'format' and isinstance(f.value, ast.Constant) \
+                and type(f.value.value) is str and not n.keywords \
+                and not any(isinstance(a, ast.Starred) for a in n.args):
+            # only '{}' fields, '{{' and '}}'
+            src, fmt, k, i = f.value.value, '', 0, 0
+            while i < len(src):
+                if src.startswith('{{', i) or src.startswith('}}', i):
+                    fmt += src[i]
+                    i += 2
+                elif src.startswith('{}', i):
+                    fmt += '%s'
+                    k += 1
+                    i += 2
+                elif src[i] in '{}':
+                    return n
+                else:
+                    fmt += fmt_escape(src[i])
+                    i += 1
+            if k != len(n.args):
+                return n
+            return ast.copy_location(ast.BinOp(left=ast.Constant(value=fmt), op=ast.Mod(),
+                                               right=ast.Tuple(elts=list(n.args), ctx=ast.Load())), n)
+        return n
+
+
+def leaves(block):
+    """the block always ends in return / raise / continue / break"""
+    if not block:
+        return False
+    last = block[-1]
+    if isinstance(last, (ast.Return, ast.Raise, ast.Continue, ast.Break)):
+        return True
+    if isinstance(last, ast.If):
+        return leaves(last.body) and leaves(last.orelse)
+    return False
+
+
+def mk_if(test, body, orelse, at):
+    while isinstance(test, ast.UnaryOp) and isinstance(test.op, ast.Not):
+        test, body, orelse = test.operand, orelse, body
+    return ast.copy_location(ast.If(test=test, body=body, orelse=orelse), at)
+
+
+def simple_target(t):
+    return isinstance(t, ast.Name) or (isinstance(t, ast.Attribute) and isinstance(t.value, ast.Name))
+
+
+def structure(stmts):
+    out = []
+    for i, s in enumerate(stmts):
+        if isinstance(s, ast.If):
+            rest = stmts[i + 1:]
+            if rest and leaves(s.body):
+                out.append(mk_if(s.test, s.body, structure(s.orelse + rest), s))
+                return out
+            if rest and leaves(s.orelse):
+                out.append(mk_if(s.test, structure(s.body + rest), s.orelse, s))
+                return out
+            b, e = s.body, s.orelse
+            if len(b) == 1 and len(e) == 1 and isinstance(b[0], ast.Assign) and isinstance(e[0], ast.Assign) \
+                    and len(b[0].targets) == 1 and len(e[0].targets) == 1 \
+                    and simple_target(b[0].targets[0]) \
+                    and ast.dump(b[0].targets[0]) == ast.dump(e[0].targets[0]):
+                out.append(ast.copy_location(ast.Assign(
+                    targets=[b[0].targets[0]],
+                    value=ast.copy_location(ast.IfExp(test=s.test, body=b[0].value, orelse=e[0].value), s)), s))
+                continue
+            out.append(mk_if(s.test, s.body, s.orelse, s))
+        else:
+            out.append(s)
+    return out
+
+
+def strip_tail(block, kinds):
+    """drop a trailing `continue` (loop body) / bare return (function body)"""
+    block = list(block)
+    while block:
+        last = block[-1]
+        if 'continue' in kinds and isinstance(last, ast.Continue):
+            block.pop()
+        elif 'return' in kinds and isinstance(last, ast.Return) and (
+                last.value is None or (isinstance(last.value, ast.Constant) and last.value.value is None)):
+            block.pop()
+        elif isinstance(last, ast.If):
+            block[-1] = ast.copy_location(ast.If(test=last.test, body=strip_tail(last.body, kinds),
+                                                 orelse=strip_tail(last.orelse, kinds)), last)
+            break
+        else:
+            break
+    return block
+
+
+def count_name(fn, ident):
+    return sum(1 for n in ast.walk(fn) if isinstance(n, ast.Name) and n.id == ident)
+
+
+def norm_block(stmts, fn):
+    out = []
+    for s in stmts:
+        if isinstance(s, ast.AnnAssign):
+            if s.value is None:
+                continue
+            if s.simple and isinstance(s.target, ast.Name):
+                s = ast.copy_location(ast.Assign(targets=[s.target], value=s.value), s)
+        if isinstance(s, ast.If):
+            s = ast.copy_location(ast.If(test=s.test, body=norm_block(s.body, fn),
+                                         orelse=norm_block(s.orelse, fn)), s)
+        elif isinstance(s, ast.For):
+            body = strip_tail(norm_block(s.body, fn), ('continue',))
+            # N6
+            if not s.orelse and isinstance(s.target, ast.Name) and len(body) == 1 \
+                    and isinstance(body[0], ast.Expr) and isinstance(body[0].value, ast.Yield) \
+                    and is_name(body[0].value.value, s.target.id) and count_name(fn, s.target.id) == 2:
+                s = ast.copy_location(ast.Expr(value=ast.YieldFrom(value=s.iter)), s)
+            else:
+                s = ast.copy_location(ast.For(target=s.target, iter=s.iter, body=body,
+                                              orelse=norm_block(s.orelse, fn), type_comment=None), s)
+        elif isinstance(s, ast.While):
+            s = ast.copy_location(ast.While(test=s.test, body=norm_block(s.body, fn),
+                                            orelse=norm_block(s.orelse, fn)), s)
+        out.append(s)
+    return structure(out)
+
+
+def normalise_function(fn):
+    """N1, N4 - N8 (N2 / N3 are done on the module: inline_module)"""
+    new = copy_node(fn)
+    new.decorator_list = fn.decorator_list
+    a = new.args
+    for x in a.args + a.kwonlyargs + getattr(a, 'posonlyargs', []) + \
+            ([a.vararg] if a.vararg else []) + ([a.kwarg] if a.kwarg else []):
+        x.annotation = None
+    new.returns = None
+    new = ExprNorm(function_locals(new)).visit(new)
+    doc = new.body[:len(new.body) - len(strip_doc(new.body))]
+    new.body = doc + strip_tail(norm_block(strip_doc(new.body), new), ('return',))
+    if not strip_doc(new.body):
+        new.body = new.body + [ast.Pass()]
+    return ast.fix_missing_locations(new)
+
+
+def normalise_module(tree, allow_attr=()):
+    tree = inline_module(tree, allow_attr)
+    body = []
+    for st in tree.body:
+        if isinstance(st, ast.ClassDef):
+            st = copy_class(st, [normalise_function(x) if isinstance(x, ast.FunctionDef) else x
+                                 for x in st.body])
+        elif isinstance(st, ast.FunctionDef):
+            st = normalise_function(st)
+        elif isinstance(st, ast.AnnAssign) and st.simple and isinstance(st.target, ast.Name) \
+                and st.value is not None:
+            st = ast.copy_location(ast.Assign(targets=[st.target], value=st.value), st)
+        body.append(st)
+    return ast.fix_missing_locations(ast.Module(body=body, type_ignores=[]))
+
+
+def alpha_fn(fn):
+    """the function with its non-parameter locals renamed in order of first occurrence"""
+    a = fn.args
+    params = {x.arg for x in a.args + a.kwonlyargs + getattr(a, 'posonlyargs', [])}
+    if a.vararg:
+        params.add(a.vararg.arg)
+    if a.kwarg:
+        params.add(a.kwarg.arg)
+    locs = function_locals(fn) - params
+    order = []
+
+    class V(ast.NodeVisitor):
+        def visit_Name(self, n):
+            if n.id in locs and n.id not in order:
+                order.append(n.id)
+    for st in fn.body:
+        V().visit(st)
+    ren = {nm: '_v%d' % i for i, nm in enumerate(order)}
+    new = copy_node(fn)
+    new.decorator_list = fn.decorator_list
+    return ast.fix_missing_locations(Subst({}, ren).visit(new))
+
+
 # ------------------------------------------------------------- module checks
 def module_bindings(tree, allow_attr=()):
     bound = {}
@@ -283,6 +765,9 @@ def module_bindings(tree, allow_attr=()):
                     elif isinstance(x, ast.Attribute) and not isinstance(x.ctx, ast.Load):
                         need(isinstance(x.value, ast.Name) and (x.value.id, x.attr) in allow_attr,
                              'module-level attribute assignment at %s' % where(st))
+        elif isinstance(st, ast.AnnAssign) and isinstance(st.target, ast.Name):
+            if st.value is not None:
+                bound.setdefault(st.target.id, []).append('assign')
         elif isinstance(st, ast.Expr) and isinstance(st.value, ast.Constant):
             pass
         else:
@@ -309,8 +794,12 @@ def prop_kind(fn):
     return 'other', fn.name
 
 
+def pin_form(fn):
+    return norm_fn(alpha_fn(fn))
+
+
 def check_pins(classes, ref_src, fname):
-    ref = ast.parse(ref_src)
+    ref = normalise_module(ast.parse(ref_src))
     for r in ref.body:
         if isinstance(r, ast.FunctionDef):
             continue
@@ -320,7 +809,7 @@ def check_pins(classes, ref_src, fname):
             kind = prop_kind(item)[0]
             got = [x for x in cl.body if isinstance(x, ast.FunctionDef) and x.name == item.name
                    and prop_kind(x)[0] == kind]
-            need(len(got) == 1 and norm_fn(got[0]) == norm_fn(item),
+            need(len(got) == 1 and pin_form(got[0]) == pin_form(item),
                  '%s.%s differs from the source the interpreter\'s reading is pinned to'
                  % (r.name, item.name))
 
@@ -408,7 +897,9 @@ def check_data_module(tree):
                 names.update(t.id for t in st.targets)
             need({'name', 'begin', 'end'} <= names, '%s: name/begin/end not all defined' % nm)
     tn = [st.name for st in classes['TexArgs'].body if isinstance(st, ast.FunctionDef)]
-    need(set(tn) <= set(TEXARGS_MEMBERS), 'the methods of TexArgs changed: %s' % sorted(tn))
+    # an additional method is harmless unless it overrides something of `list` or is special / private
+    need(all(nm in TEXARGS_MEMBERS or (not nm.startswith('_') and nm not in LIST_ATTRS and nm != 'all')
+             for nm in tn), 'the methods of TexArgs changed: %s' % sorted(tn))
     # ---- .parent is read in TexNode only; ._contents is stored by __init__ and the setter only
     for nm, cl in classes.items():
         for fn in cl.body:
@@ -425,7 +916,8 @@ def check_data_module(tree):
     for st in tree.body:
         if isinstance(st, ast.FunctionDef):
             for n in ast.walk(st):
-                need(not (isinstance(n, ast.Attribute) and n.attr in ('parent', '_contents')),
+                need(not (isinstance(n, ast.Attribute) and (n.attr == 'parent' or (
+                    n.attr == '_contents' and not isinstance(n.ctx, ast.Load)))),
                      'module-level function %s touches .%s' % (st.name, getattr(n, 'attr', '')))
     return classes
 
@@ -446,15 +938,22 @@ def check_utils_module(tree):
         if isinstance(st, ast.FunctionDef):
             need(st.name not in ('__ne__', '__getattribute__', '__setattr__', '__req__'),
                  'Token defines %s' % st.name)
-    ref = [r for r in ast.parse(PINNED_UTILS).body if isinstance(r, ast.FunctionDef)][0]
+    ref = [r for r in normalise_module(ast.parse(PINNED_UTILS)).body if isinstance(r, ast.FunctionDef)][0]
     got = [st for st in tree.body if isinstance(st, ast.FunctionDef) and st.name == 'to_list']
-    need(len(got) == 1 and norm_fn(got[0]) == norm_fn(ref), 'utils.to_list changed')
+    need(len(got) == 1 and pin_form(got[0]) == pin_form(ref), 'utils.to_list changed')
 
 
 def check_tex_module(tree):
-    ref = ast.dump(ast.parse(PINNED_ROOT, mode='eval').body)
+    def form(call):
+        # the name of the variable that holds the contents does not matter
+        call = copy.deepcopy(call)
+        for kw in call.keywords:
+            if kw.arg == 'contents' and isinstance(kw.value, ast.Name):
+                kw.value = ast.Name(id='buf', ctx=ast.Load())
+        return ast.dump(call)
+    ref = form(ast.parse(PINNED_ROOT, mode='eval').body)
     calls = [n for n in ast.walk(tree) if isinstance(n, ast.Call) and is_name(n.func, 'TexEnv')]
-    need(len(calls) == 1 and ast.dump(calls[0]) == ref,
+    need(len(calls) == 1 and form(calls[0]) == ref,
          'tex.py: the construction of the root environment changed')
 
 
@@ -517,6 +1016,19 @@ class Scope(object):
             self.vars[x.arg] = self.nslots
             self.nslots += 1
         self.loop_depth = 0
+        # names that may hold a tuple (a VList stands for a list or a tuple; `+` tells them
+        # apart in Python -- list + tuple is a TypeError -- so `+` on such a name is refused)
+        self.tuples = set([a.vararg.arg] if a.vararg else [])
+        changed = True
+        while changed:
+            changed = False
+            for n in ast.walk(fn):
+                if isinstance(n, ast.Assign) and self.may_tuple(n.value):
+                    for t in n.targets:
+                        for x in ast.walk(t):
+                            if isinstance(x, ast.Name) and x.id not in self.tuples:
+                                self.tuples.add(x.id)
+                                changed = True
         for n in ast.walk(fn):
             need(not isinstance(n, (ast.FunctionDef, ast.AsyncFunctionDef, ast.ClassDef, ast.Lambda,
                                     ast.Yield, ast.YieldFrom, ast.Await, ast.With, ast.Import,
@@ -527,6 +1039,21 @@ class Scope(object):
 
     def err(self, n, what):
         raise TranslationError('%s, %s: %s: %s' % (self.owner, where(n), what, shape(n)))
+
+    def may_tuple(self, n):
+        if isinstance(n, ast.Tuple):
+            return True
+        if isinstance(n, ast.Name):
+            return n.id in self.tuples
+        if isinstance(n, ast.IfExp):
+            return self.may_tuple(n.body) or self.may_tuple(n.orelse)
+        if isinstance(n, ast.BoolOp):
+            return any(self.may_tuple(v) for v in n.values)
+        if isinstance(n, ast.BinOp):
+            return self.may_tuple(n.left) or self.may_tuple(n.right)
+        if isinstance(n, ast.Call) and is_name(n.func, 'tuple'):
+            return True
+        return False
 
     def free(self, name):
         return name not in self.vars
@@ -629,7 +1156,11 @@ class Scope(object):
             self.err(n, 'unsupported attribute')
         if isinstance(n, ast.BinOp):
             if isinstance(n.op, ast.Add):
+                need(not self.may_tuple(n.left) and not self.may_tuple(n.right),
+                     '%s: `+` on what may be a tuple at %s' % (self.owner, where(n)))
                 return 'EAdd (%s) (%s)' % (self.ex(n.left), self.ex(n.right))
+            if isinstance(n.op, ast.Sub):
+                return 'ESub (%s) (%s)' % (self.ex(n.left), self.ex(n.right))
             if isinstance(n.op, ast.Mod) and isinstance(n.left, ast.Constant) \
                     and type(n.left.value) is str:
                 pieces = parse_format(n.left.value, self.owner, n)
@@ -666,8 +1197,11 @@ class Scope(object):
                 return 'EIn (%s) (%s)' % (a, b)
             if isinstance(op, ast.NotIn):
                 return 'ENot (EIn (%s) (%s))' % (a, b)
+            if type(op) in CMPOPS:
+                return 'ECmp %s (%s) (%s)' % (CMPOPS[type(op)], a, b)
             self.err(n, 'unsupported comparison')
-        if isinstance(n, ast.List):
+        if isinstance(n, (ast.List, ast.Tuple)):
+            # a tuple display is a VList too (EditDSL: a VList stands for a list or a tuple)
             need(isinstance(n.ctx, ast.Load), 'list context')
             need(not any(isinstance(e, ast.Starred) for e in n.elts), 'starred list display')
             return 'EListLit %s' % self.exprs(n.elts)
@@ -695,6 +1229,9 @@ class Scope(object):
                     return '%s (%s)' % (one[f.id], self.ex(a[0]))
                 if f.id == 'next' and len(a) == 2 and nostar:
                     return 'ENext (%s) (%s)' % (self.ex(a[0]), self.ex(a[1]))
+                if f.id in ('max', 'min') and len(a) == 2 and nostar:
+                    return 'EMinMax %s (%s) (%s)' % ('true' if f.id == 'max' else 'false',
+                                                     self.ex(a[0]), self.ex(a[1]))
                 if f.id == 'map' and len(a) == 2 and nostar and is_name(a[0], 'str') and self.free('str'):
                     x = self.fresh()
                     return 'EGen (PVar %d%%nat) (%s) (ETrue) (EStrOf (EVar %d%%nat))' % (x, self.ex(a[1]), x)
@@ -703,9 +1240,9 @@ class Scope(object):
                 if f.attr == 'join' and isinstance(f.value, ast.Constant) and type(f.value.value) is str \
                         and len(a) == 1 and nostar:
                     return 'EJoin %s (%s)' % (strlit(f.value.value), self.ex(a[0]))
-                if isinstance(f.value, ast.Attribute) and f.value.attr == '_contents':
+                if isinstance(f.value, ast.Attribute) and f.value.attr in LIST_HOLDERS:
                     # a method of the list object
-                    if f.attr in LOPS and len(a) == LOPS[f.attr][1] and nostar:
+                    if f.attr in LOPS and len(a) in LOPS[f.attr][1] and nostar:
                         return 'ELop (%s) %s %s' % (self.ex(f.value), LOPS[f.attr][0], self.exprs(a))
                     self.err(n, 'unsupported list method')
                 if f.attr in METHODS and f.attr != '__str__':
@@ -736,6 +1273,10 @@ class Scope(object):
                 return ('atom', 'SSetAttr (%s) %s (%s)' % (self.ex(t.value), ATTRS[t.attr], val))
             if isinstance(t, ast.Name):
                 return ('atom', 'SAssign %d%%nat (%s)' % (self.declare(t.id), val))
+            if isinstance(t, ast.Subscript) and isinstance(t.value, ast.Attribute) \
+                    and t.value.attr in LIST_HOLDERS:
+                # l[i] = v / l[a:b] = v on a list object: translated, outside the model (OUnsup)
+                return ('atom', 'SStoreItem (%s) (%s)' % (self.ex(t.value), val))
             self.err(s, 'unsupported assignment target')
         if isinstance(s, ast.Delete):
             need(len(s.targets) == 1 and isinstance(s.targets[0], ast.Subscript),
@@ -885,9 +1426,9 @@ def generate():
     def load(name):
         with open(os.path.join(REPO, 'TexSoup', name)) as f:
             return ast.parse(f.read())
-    data = load('data.py')
+    data = normalise_module(load('data.py'))
     classes = check_data_module(data)
-    check_utils_module(load('utils.py'))
+    check_utils_module(normalise_module(load('utils.py'), (('Token', 'Empty'),)))
     check_tex_module(load('tex.py'))
     members = collect_members(classes)
     have = {(c, m) for c, m, _, _ in members}
